@@ -654,6 +654,35 @@ var boundary = map[token.Token]string{token.LSS: "<=", token.LEQ: "<", token.GTR
 
 func (g *vgen) fault(n ast.Node, stack []ast.Node) {
 	switch x := n.(type) {
+	case *ast.FuncDecl:
+		// the method works on a copy of its receiver
+		if x.Recv != nil && len(x.Recv.List) == 1 {
+			if st, ok := x.Recv.List[0].Type.(*ast.StarExpr); ok {
+				g.add("value-receiver", st, g.text(st.X))
+			}
+		}
+	case *ast.BranchStmt:
+		if x.Tok == token.FALLTHROUGH {
+			g.add("del-fallthrough", x, "")
+		}
+	case *ast.BlockStmt:
+		// two adjacent simple statements change places
+		simple := func(s ast.Stmt) bool {
+			switch s.(type) {
+			case *ast.ExprStmt, *ast.AssignStmt, *ast.IncDecStmt:
+				return true
+			}
+			return false
+		}
+		for i := 0; i+1 < len(x.List); i++ {
+			a, b := x.List[i], x.List[i+1]
+			if simple(a) && simple(b) {
+				s0, e1 := g.fset.Position(a.Pos()).Offset, g.fset.Position(b.End()).Offset
+				mid := string(g.src[g.fset.Position(a.End()).Offset:g.fset.Position(b.Pos()).Offset])
+				g.out = append(g.out, variant{Op: "swap-stmts", File: g.file, Line: g.fset.Position(a.Pos()).Line, Func: g.fn,
+					Old: strings.Join(strings.Fields(g.text(a)+" ; "+g.text(b)), " "), New: g.text(b) + mid + g.text(a), s: s0, e: e1})
+			}
+		}
 	case *ast.IfStmt:
 		g.add("negate-if", x.Cond, "!("+g.text(x.Cond)+")")
 	case *ast.BinaryExpr:
